@@ -71,6 +71,9 @@ class SlottedCallable(Slotted):
     __slots__ = ()
     def __call__(self, x):
         return ("called", self.a, x)
+class KwCtor:
+    def __init__(this, self=0, args=1, kwargs=2, obj=3):
+        this.got = ("ctor", self, args, kwargs, obj)
 plain.__vf_meta__ = ("meta", "plain")
 clo.__vf_meta__ = ("meta", "clo")
 Plain.__vf_meta__ = ("meta", "Plain")
@@ -254,6 +257,20 @@ def main(tier):
                 viol("call-not-forwarded:keyword-named-like-wrapper-parameter",
                      f"wrapper(**{kwargs}) gave {got!r}, the callable gives {f(**kwargs)!r}",
                      ("kw", keep, tuple(kwargs)))
+    # ... and a wrapped CLASS is constructed like the class, whatever its parameters are called
+    for keep in (True, False):
+        n += 1
+        cls = ns["KwCtor"]
+        wc = wrap(cls, keep_wrapper=keep)
+        for kwargs in ({"self": 9}, {"args": 8, "kwargs": 7}, {"obj": 6, "self": 5}, {}):
+            try:
+                got = wc(**kwargs).got
+            except BaseException as e:       # noqa
+                got = f"EXC:{type(e).__name__}:{e}"
+            if got != cls(**kwargs).got:
+                viol("class-construction-not-forwarded:keyword-named-like-wrapper-parameter",
+                     f"wrapped_class(**{kwargs}) gave {got!r}, the class gives {cls(**kwargs).got!r}",
+                     ("kw-ctor", keep, tuple(kwargs)))
     # the documented decorator use on a function that refers to itself by its (now wrapped) name
     dns = {"__name__": "__vf_main_like__", "wrap": wrap}
     exec(compile("@wrap\ndef drec(n):\n    return 1 if n <= 1 else n * drec(n - 1)\n"
@@ -338,11 +355,14 @@ def main(tier):
               ("Mutable", lambda: ns["Mutable"](2), False),
               ("MutableCallable", lambda: ns["MutableCallable"](3), False),
               ("Mutable", lambda: None, True), ("MutableCallable", lambda: None, True)]
-    OPS = ["send", "mutate-object", "mutate-through-wrapper"]
+    # "read": the wrapper itself is observed where it is (no trip): attribute reads, method and
+    # call results must be those of the wrapped object as it is NOW (live forwarding, no copy)
+    OPS = ["send", "mutate-object", "mutate-through-wrapper", "read"]
     for (kind, make, via_class), keep in itertools.product(makers, [True, False]):
         for L in (2, 3, 4):
             for hist in itertools.product(OPS, repeat=L):
-                if "send" not in hist[1:] or not any(o != "send" for o in hist):
+                if not any(o in ("send", "read") for o in hist[1:]) \
+                        or not any(o.startswith("mutate") for o in hist):
                     continue
                 if via_class and "mutate-object" in hist:
                     continue        # a class-wrapper instance has no separate bare object
@@ -361,6 +381,13 @@ def main(tier):
                             mutate(kind, obj, i + 1)
                         elif op == "mutate-through-wrapper":
                             mutate(kind, w, 10 * (i + 1))
+                        elif op == "read":
+                            got, exp = observe(kind, w), observe(kind, obj)
+                            if got != exp:
+                                viol(f"stale-read-through-wrapper:{kind}:{'class' if via_class else 'object'}",
+                                     f"step #{i + 1}: the wrapper shows {got} while the wrapped "
+                                     f"object now is {exp}", case)
+                                break
                         else:
                             got = observe(kind, pickle.loads(pickle.dumps(w)))
                             exp = observe(kind, obj)
@@ -377,7 +404,7 @@ def main(tier):
         rule="product of {6 function kinds, 5 instance kinds} x keep_wrapper x round trips "
              "{1,2,3} x outer wrapper {none, keep, no-keep}, plus {5 classes} x keep_wrapper x "
              "round trips for class wrappers; all histories of length 2-4 over {send, change the "
-             "object, change it through the wrapper} on one wrapper of 3 stateful kinds (and 2 "
+             "object, change it through the wrapper, read through the wrapper in place} on one wrapper of 3 stateful kinds (and 2 "
              "class-wrapper instances): each send delivers the state of that moment; every case "
              "distinct; behaviour = callable flag, "
              "call results on probes, attribute reads (incl. a property), a method call")
